@@ -152,6 +152,9 @@ func (l *OpLib) Get(name string) *Op {
 		if c := l.blockOf(name); c != nil {
 			return c
 		}
+		if c := l.txOf(name); c != nil {
+			return c
+		}
 		panic("unknown op " + name)
 	}
 	return o
@@ -161,7 +164,7 @@ func (l *OpLib) Has(name string) bool {
 	if _, ok := l.ops[name]; ok {
 		return true
 	}
-	return l.blockOf(name) != nil
+	return l.blockOf(name) != nil || l.txOf(name) != nil
 }
 
 // BlockOf names the composite op that places the transactions of several ops in ONE block, in the given
@@ -1153,6 +1156,7 @@ func NewOpLib() *OpLib {
 	addC10Ops(l)
 	addAutoCfgOps(l)
 	addDenomSweepOps(l)
+	addWideOps(l)
 	return l
 }
 
